@@ -152,6 +152,36 @@ pub fn test_c12(c: &Case) -> Verdict {
 
 pub const RULE_C12: &str = "CKKS layer: cases = the straight-line CKKS programs of C16 (backend, parameter set, 2 fresh encryptions + 1..13 steps among add/sub/mul/square/neg/pow2/rotate/conjugate/rescale/align and the plaintext forms, into or in place). Every library call of the program receives a 64-byte aligned scratch window of exactly the bytes its own ckks_*_tmp_bytes query returns (queried with the larger of destination and operands where the query takes one layout), inside guard regions and filled with garbage; the program runs with ample scratch and twice with exact windows (two fills). Violation = panic in exact mode only, damaged guard, or final registers (metadata and raw digits) differing between the three runs. non-trivial = at least one call with a non-zero query.";
 
+/// C10 (CKKS layer): the same program, keys and seeds with the FFT64 parameter set on all four backends.
+pub fn test_xb(c: &Case) -> Verdict {
+    let mut c = c.clone();
+    for op in c.ops.iter_mut() {
+        if let Op::Bin { kind, .. } = op {
+            *kind %= 3;
+        }
+    }
+    let r0 = fft_ref::run_fft_params(&c);
+    let classes: Vec<String> = match &r0.0 {
+        Verdict::Pass(i) => i.classes.iter().filter(|x| !x.starts_with("tolerance") && !x.contains("fft64") && !x.contains("ntt120")).cloned().collect(),
+        Verdict::Fail { .. } => return Verdict::pass(false, &["skipped:fails_on_the_reference_backend(C16)"]),
+    };
+    let others = [("fft64_avx", fft_avx::run_fft_params(&c)), ("ntt120_ref", ntt_ref::run_fft_params(&c)), ("ntt120_avx", ntt_avx::run_fft_params(&c))];
+    for (name, (v, d)) in others.iter() {
+        if let Verdict::Fail { sig, detail } = v {
+            return Verdict::fail(format!("{}|fails-on-{name}-only", sig.split('|').next().unwrap_or("")), format!("the program passes the C16 oracle on fft64_ref and fails it on {name} with the same parameters, keys and seeds: {sig}: {detail}"));
+        }
+        if *d != r0.1 {
+            let fam = if name.starts_with("fft") { "fft64-ref-vs-avx" } else { "fft64-vs-ntt120" };
+            return Verdict::fail(format!("ckks_program|{fam}"), format!("final registers (metadata, raw digits) differ between fft64_ref and {name} for equal parameters, keys, inputs and seeds\ncase={c:?}"));
+        }
+    }
+    let mut cl: Vec<&str> = classes.iter().map(|x| x.as_str()).collect();
+    cl.push("four_backends_identical");
+    Verdict::pass(true, &cl)
+}
+
+pub const RULE_C10: &str = "CKKS layer: cases = the straight-line programs of C16 with the FFT64 parameter set (radix 19 / 16, N 64 / 32) executed with identical keys, inputs and seeds on FFT64Ref, FFT64Avx, NTT120Ref, NTT120Avx; the final register files (metadata and raw digits of every ciphertext) must be identical. non-trivial = the program passes the C16 oracle on the reference backend.";
+
 fn mem_only(f: fn(&Case) -> Verdict) -> impl Fn(&Case) -> Verdict + Sync {
     move |c| match f(c) {
         Verdict::Fail { sig, .. } if !sig.contains("guard-damaged") => Verdict::pass(false, &["value_oracle_or_panic_ignored_here"]),
@@ -202,6 +232,9 @@ fn main() {
         if prop == "C12" {
             std::process::exit(ctx.replay_case::<Case, _>(&sub, &case, test_c12));
         }
+        if prop == "C10" {
+            std::process::exit(ctx.replay_case::<Case, _>(&sub, &case, test_xb));
+        }
         if prop == "C17" {
             let _ = pzv_common::driver::arm_sanitizer_callback(&ctx.property, &ctx.root);
             let f: fn(&Case) -> Verdict = if sub == "asan_ckks_exact_scratch" { test_c12 } else { test };
@@ -210,6 +243,13 @@ fn main() {
         std::process::exit(ctx.replay_case::<Case, _>(&sub, &case, test));
     }
     let prop = args[0].clone();
+    if prop == "C10" {
+        let ctx = DCtx::from_args(&prop, &args[1..]);
+        let t = ctx.tier;
+        ctx.run_sub("ckks_cross_backend", t.pick(6_000, 150_000), 64, strategy, test_xb);
+        let code = ctx.finish(RULE_C10, &["the evaluation keys are generated per backend from the same seeds: a difference in key generation shows up as a difference of the results"], &[("four_backends_identical", 1000), ("mul_into", 50), ("rotate", 50)]);
+        std::process::exit(code);
+    }
     if prop == "C17" {
         // CKKS programs in the AddressSanitizer build: only memory safety is judged here
         let ctx = DCtx::from_args(&prop, &args[1..]);
